@@ -68,7 +68,9 @@ SMOOTH = ["none", "lowess", "modsinc", "savgol", "whithend"]
 INTERP = ["akima", "cubic", "makima", "pchip"]
 LINEAR_TESTS = ["real", "complex", "imaginary", "real-inv", "complex-inv", "imaginary-inv"]
 PROCS = [2, 3, 4, 7, 16]
-MAX_MS = {"fit": 24.0, "rec": 20.0, "off": 6.0, "ext": 30.0, "cnls": 30.0}
+# upper bound of the injected delay per task; it has to be comparable with the spread of the task durations to permute
+# completions (offset fits take ~3 ms, one cnls fit 0.1-1 s)
+MAX_MS = {"fit": 24.0, "rec": 20.0, "off": 6.0, "ext": 120.0, "cnls": 500.0}
 MAIN_STAGE = {"fit": "fit", "zhit": "off", "kkext": "ext", "kkauto": "ext", "cnls": "cnls", "kkext-cnls": "cnls"}
 
 
@@ -315,7 +317,9 @@ def _case_mock(rng, tier):
             (s + 65536 * int(rng.integers(1, 2**12))) % 2**32,  # same low 16 bits
             (s + 1) % 2**32,
             s ^ (1 << 31),
-        ][int(rng.integers(0, 5))]
+            (s + 1000 * int(rng.integers(1, 2**20))) % 2**32,  # same last 3 decimal digits
+            (s + 2**24 * int(rng.integers(1, 2**8))) % 2**32,  # same low 24 bits
+        ][int(rng.integers(0, 7))]
         if other == s:
             other = (s + 1) % 2**32
         items.append(
@@ -421,7 +425,12 @@ def _call(case, data, P):
     o = case["opts"]
     if kind == "fit":
         r = pyimpspec.fit_circuit(pyimpspec.parse_cdc(case["cdc"]), data, method=list(o["method"]), weight=list(o["weight"]), max_nfev=o["max_nfev"], num_procs=P)
-        ident = [r.method, r.weight, r.circuit.to_string(), sorted((k, sorted((p, v.fixed, v.unit) for p, v in d.items())) for k, d in r.parameters.items())]
+        ident = {
+            "method": r.method,
+            "weight": r.weight,
+            "circuit": r.circuit.to_string(),
+            "parameter_table": sorted((k, sorted((p, v.fixed, v.unit) for p, v in d.items())) for k, d in r.parameters.items()),
+        }
         nums = {
             "pseudo_chisqr": _arr([r.pseudo_chisqr]),
             "values": _arr([v.value for _, d in sorted(r.parameters.items()) for _, v in sorted(d.items())]),
@@ -432,18 +441,18 @@ def _call(case, data, P):
             "residuals": _arr(r.residuals),
         }
         mr = r.minimizer_result
-        ident.append([int(getattr(mr, "nfev", -1)), int(getattr(mr, "ndata", -1)), int(getattr(mr, "nvarys", -1)), list(getattr(mr, "var_names", []))])
+        ident["minimizer"] = [int(getattr(mr, "nfev", -1)), int(getattr(mr, "ndata", -1)), int(getattr(mr, "nvarys", -1)), list(getattr(mr, "var_names", []))]
         nums["mr.stats"] = _arr([float(getattr(mr, a, np.nan)) for a in ("chisqr", "redchi", "aic", "bic")])
         nums["mr.residual"] = _arr(getattr(mr, "residual", []))
         nums["mr.params"] = _arr([p.value for p in mr.params.values()])
         cov = getattr(mr, "covar", None)
-        ident.append(cov is not None)
+        ident["has_covar"] = cov is not None
         if cov is not None:
             nums["mr.covar"] = _arr(cov)
         return ident, nums
     if kind == "zhit":
         r = pyimpspec.perform_zhit(data, num_procs=P, **o)
-        return [r.smoothing, r.interpolation, r.window], {
+        return {"smoothing": r.smoothing, "interpolation": r.interpolation, "window": r.window}, {
             "pseudo_chisqr": _arr([r.pseudo_chisqr]),
             "frequencies": _arr(r.frequencies),
             "impedances": _arr(r.impedances),
@@ -451,7 +460,7 @@ def _call(case, data, P):
         }
     if kind == "kkauto":
         r = pyimpspec.perform_kramers_kronig_test(data, num_procs=P, **o)
-        return [int(r.num_RC), bool(r.admittance), r.test, r.circuit.to_string()], {
+        return {"num_RC": int(r.num_RC), "admittance": bool(r.admittance), "test": r.test, "circuit": r.circuit.to_string()}, {
             "log_F_ext": _arr([r.get_log_F_ext()]),
             "pseudo_chisqr": _arr([r.pseudo_chisqr]),
             "impedances": _arr(r.impedances),
@@ -462,7 +471,7 @@ def _call(case, data, P):
     if kw.get("num_RCs") is None:
         kw.pop("num_RCs", None)
     res = evaluate_log_F_ext(data, num_procs=P, **kw)
-    ident = [len(res), [[int(t.num_RC) for t in tests] for _, tests, _ in res]]
+    ident = {"evaluations": len(res), "num_RCs": [[int(t.num_RC) for t in tests] for _, tests, _ in res]}
     nums = {
         "log_F_ext": _arr([a for a, _, _ in res]),
         "statistic": _arr([s for _, _, s in res]),
@@ -473,12 +482,16 @@ def _call(case, data, P):
     if kind in ("kkext", "kkext-cnls"):
         from pyimpspec.analysis.kramers_kronig import suggest_num_RC
 
-        try:
-            sug = suggest_num_RC(res[0][1])
-            ident.append(["suggested", int(sug[0].num_RC), int(sug[2]), int(sug[3])])
-            nums["suggest.scores"] = _arr([v for _, v in sorted(sug[1].items())])
-        except Exception as e:  # consistent across runs or it shows up as an identity difference
-            ident.append(["suggest-raised", type(e).__name__])
+        # the winner of the search = best extension + the number of RC elements suggested for it (default methods).
+        # INFO only (not part of the verdict: suggest_num_RC does not fan out, so it is outside the property's
+        # quantifier): method 6 alone, which fits a cubic from a start vector drawn from numpy's global RNG.
+        for name, kw2 in (("suggested_num_RC", {}), ("info:method6", {"methods": [6]})):
+            try:
+                sug = suggest_num_RC(res[0][1], **kw2)
+                ident[name] = [int(sug[0].num_RC), int(sug[2]), int(sug[3])]
+                nums[name + ".scores"] = _arr([v for _, v in sorted(sug[1].items())])
+            except Exception as e:  # consistent across runs or it shows up as an identity difference
+                ident[name] = ["raised", type(e).__name__]
     return ident, nums
 
 
@@ -548,9 +561,12 @@ def _compare(ref, cur):
         return "ref-raised", 0.0, f"reference (serial) raised {ref['exc']} at {ref['origin']} ({ref['text']}) but this run completed"
     dev = 0.0
     bad = None
-    if ref["ident"] != cur["ident"]:
-        bad = "winner"
+    for k in sorted(set(ref["ident"]) | set(cur["ident"])):
+        if ref["ident"].get(k) != cur["ident"].get(k) and not k.startswith("info:"):
+            bad = bad or f"winner:{k}"
     for k in sorted(set(ref["nums"]) | set(cur["nums"])):
+        if k.startswith("info:"):
+            continue
         a, b = ref["nums"].get(k), cur["nums"].get(k)
         if a is None or b is None or a.shape != b.shape:
             bad = bad or f"numbers:{k}"
@@ -563,7 +579,9 @@ def _compare(ref, cur):
             dev = max(dev, float(d.max()) if d.size else float("inf"))
     detail = ""
     if bad:
-        detail = f"reference {ref['ident'][:3]} vs {cur['ident'][:3]}"
+        k0 = bad.split(":", 1)[1] if bad.startswith("winner:") else None
+        detail = f"reference {k0}={ref['ident'].get(k0)!r} vs {cur['ident'].get(k0)!r}" if k0 else f"field {bad}"
+        detail = detail[:600]
         for k in ("pseudo_chisqr", "log_F_ext"):
             if k in ref["nums"] and k in cur["nums"]:
                 detail += f"; {k} {[float(x).hex() for x in ref['nums'][k][:3]]} vs {[float(x).hex() for x in cur['nums'][k][:3]]}"
@@ -607,7 +625,8 @@ def _run_mock(case):
         if Za.shape == Zc.shape:
             d = float(np.abs(Za - Zc).max() / np.abs(Za).max())
             mind = min(mind, d / (it["noise"] / 100.0))
-            rel = "low8" if (it["seed"] ^ it["other"]) % 256 == 0 else "other"
+            x = it["seed"] ^ it["other"]
+            rel = "low24" if x % 2**24 == 0 else "low16" if x % 2**16 == 0 else "low8" if x % 256 == 0 else "high-bit" if x == 2**31 else "mod1000" if (it["seed"] - it["other"]) % 1000 == 0 else "other"
             if Za.tobytes() == Zc.tobytes():
                 viol.append({"key": f"C17/mock/different-seeds-same-data:{rel}", "msg": f"generate_mock_data({it['ident']!r}, noise={it['noise']}) returns identical data for seed={it['seed']} and seed={it['other']}", "witness": {"item": it, "replay_case": {"kind": "mock", "items": [it]}}})
         keys.append(("mock", it["ident"], it["noise"], it["ppd"]))
@@ -674,6 +693,15 @@ def _run_analysis(case, kind, tmp):
                 stats["zhit.rec_orders_logged"] = stats.get("zhit.rec_orders_logged", 0) + 1
         bad, dev, detail = _compare(ref, r)
         evals += 1
+        if ref["outcome"] == "ok" and r["outcome"] == "ok" and "info:method6" in ref["ident"]:
+            a, b = ref["nums"].get("info:method6.scores"), r["nums"].get("info:method6.scores")
+            stats["info.method6.compared"] = stats.get("info.method6.compared", 0) + 1
+            if ref["ident"]["info:method6"] != r["ident"].get("info:method6"):
+                stats[f"info.method6.suggestion_differs.{run['tag']}"] = stats.get(f"info.method6.suggestion_differs.{run['tag']}", 0) + 1
+            if a is not None and b is not None and a.shape == b.shape and a.tobytes() != b.tobytes():
+                stats[f"info.method6.score_bits_differ.{run['tag']}"] = stats.get(f"info.method6.score_bits_differ.{run['tag']}", 0) + 1
+                with np.errstate(all="ignore"):
+                    maxobs["info.method6.max_rel_score_dev"] = max(maxobs.get("info.method6.max_rel_score_dev", 0.0), float(np.nanmax(np.abs(a - b) / np.maximum(np.abs(a), 1e-300))))
         if run["P"] != 1 and ref["outcome"] == "ok":
             pooled_compared += 1
         cls = run["tag"]
@@ -717,7 +745,12 @@ def _run_analysis(case, kind, tmp):
     npool = sum(1 for r in runs if r["P"] != 1 and (r.get("sched") or {}).get("mode", "none") != "none")
     if ref["outcome"] == "ok" and fanout >= 4 and npool >= 3 and len(orders) < 3 and not any(v["key"].endswith("AssertionError") for v in viol):
         incon = f"{kind} case {case.get('seedinfo')}: fan-out {fanout} but only {len(orders)} distinct completion orders over {npool} delay schedules"
-    nontrivial = ref["outcome"] == "ok" and pooled_compared > 0
+    nontrivial = ref["outcome"] == "ok" and pooled_compared > 0 and incon is None
+    if incon is not None:
+        # the schedules did not produce enough different interleavings: this case proves nothing (its comparisons are
+        # not counted as evidence); violations found nevertheless stay violations
+        stats[f"{kind}.cases_inconclusive_too_few_orders"] = 1
+        evals = 0
     return {
         "evals": evals,
         "keys": [(kind, _case_hash(case), case.get("cell"))] if nontrivial else [],
@@ -726,7 +759,7 @@ def _run_analysis(case, kind, tmp):
         "maxobs": maxobs,
         "sample": {
             "kind": kind, "input": case.get("src") or case.get("spec"), "cdc": case.get("cdc"), "opts": case["opts"],
-            "reference": ref.get("ident", ref.get("exc")) if kind != "fit" else (ref.get("ident") or [ref.get("exc")])[:3],
+            "reference": {k: v for k, v in ref["ident"].items() if k not in ("parameter_table", "num_RCs", "minimizer", "info:method6")} if ref["outcome"] == "ok" else ref.get("exc"),
             "runs": [{"tag": r["tag"], "P": r["P"], "mode": (r.get("sched") or {}).get("mode"), "t": round(x["t"], 2)} for r, x in zip(runs, results)],
             "fanout": fanout, "distinct_orders": len(orders), "worker_pids": len(pids), "tied_with_best": ties,
         },
@@ -739,7 +772,8 @@ def _short(o):
 
 
 def finalize(agg):
-    inconclusive = [a["inconclusive"] for a in agg["aggs"] if a and a.get("inconclusive")]
+    inconclusive = []
+    weak = [a["inconclusive"] for a in agg["aggs"] if a and a.get("inconclusive")]
     st = agg["stats"]
     info = {}
     for kind in ("fit", "zhit", "kkext", "cnls"):
@@ -747,11 +781,14 @@ def finalize(agg):
         info[kind] = {
             "cases": len(cs),
             "reference_completed": sum(1 for a in cs if a.get("ref_ok")),
+            "conclusive": sum(1 for a in cs if a.get("ref_ok") and not a.get("inconclusive")),
             "cases_with_exact_tie": sum(1 for a in cs if a.get("ties", 0) > 1),
             "distinct_completion_orders_total": sum(a.get("orders", 0) for a in cs),
         }
         if not cs or not any(a.get("ref_ok") for a in cs):
             inconclusive.append(f"no {kind} case with a completed serial reference")
+        elif info[kind]["conclusive"] == 0:
+            inconclusive.append(f"no conclusive {kind} case: " + "; ".join(a["inconclusive"] for a in cs if a.get("inconclusive")))
         elif sum(a.get("orders", 0) for a in cs) < 3:
             inconclusive.append(f"{kind}: fewer than 3 distinct completion orders observed in total")
     for kind in ("fit", "zhit"):
@@ -763,4 +800,7 @@ def finalize(agg):
     for k in S.TARGETS:
         if mon.get(f"worker_rebound.{k}", 0) < 1:
             inconclusive.append(f"worker function of kind {k} could not be re-bound")
+    info["cases_inconclusive_too_few_orders"] = weak
+    if len(weak) > max(1, len(agg["aggs"]) // 5):
+        inconclusive.append(f"{len(weak)} cases with too few distinct completion orders: {weak[0]}")
     return {"viol": [], "inconclusive": inconclusive, "info": info}
